@@ -1,0 +1,11 @@
+//go:build verif
+
+package oned
+
+// hooks of work package enc2: the look-ahead automaton of the Code 128 writer on its own
+
+func VerifCode128FindCType(value []rune, start int) int { return int(code128FindCType(value, start)) }
+
+func VerifCode128ChooseCode(value []rune, start, oldCode int) int {
+	return code128ChooseCode(value, start, oldCode)
+}
